@@ -194,10 +194,38 @@ fn simple_strategy(_tier: Tier) -> BoxedStrategy<PairCase> {
     (ver.clone(), ver).prop_map(|(a, b)| PairCase { a, b }).boxed()
 }
 
+pub const ENUM_TOKENS: [&str; 16] = ["0", "1", "2", "10", ".", "_", "alpha", "beta", "pre", "rc", "pl", "nb1", "nb", "a", "B", "é"];
+
+fn enum_versions(max_len: usize) -> Vec<String> {
+    let mut out = vec![String::new()];
+    let mut cur = vec![String::new()];
+    for _ in 0..max_len {
+        let mut next = Vec::with_capacity(cur.len() * ENUM_TOKENS.len());
+        for v in &cur {
+            for t in ENUM_TOKENS {
+                next.push(format!("{}{}", v, t));
+            }
+        }
+        out.extend(next.iter().cloned());
+        cur = next;
+    }
+    out.sort();
+    out.dedup();
+    out
+}
+
+/// every ordered pair of versions built from at most 2 (thorough: 3) of 16 tokens
+fn enumerate(tier: Tier) -> Box<dyn Iterator<Item = PairCase>> {
+    let vs = std::sync::Arc::new(enum_versions(tier.pick(2, 3)));
+    let n = vs.len();
+    let vs2 = vs.clone();
+    Box::new((0..n * n).map(move |k| PairCase { a: vs2[k / n].clone(), b: vs2[k % n].clone() }))
+}
+
 pub fn property() -> Property {
     Property {
         id: "C01",
-        rule: "Correlated pairs (A, B) of version strings built from tokens (numbers incl. leading zeros and up to 18 digits, '.', '_', alpha/beta/pre/rc/pl and nb<N> in random case, single letters in both cases, ignorable junk incl. non-ASCII, near-modifiers); B is A after 0-3 edits. Each pair is judged for all four operators through Pattern::matches and Dewey::matches in both directions and through best_match, against reference model M-dewey. Non-trivial = A and B differ textually AND their component sequences differ in length or share a common prefix of >= 1 component (the decision is not taken on the first number). Distinct = distinct (A,B) strings. Cases inside known finding KF-1 (letter encoded by ASCII code instead of alphabet rank changes the verdict) are judged leniently and counted under known_finding_hits.",
+        rule: "Correlated pairs (A, B) of version strings built from tokens (numbers incl. leading zeros and up to 18 digits, '.', '_', alpha/beta/pre/rc/pl and nb<N> in random case, single letters in both cases, ignorable junk incl. non-ASCII, near-modifiers); B is A after 0-3 edits. A further stream enumerates completely all ordered pairs of versions made of at most 2 (thorough: 3) of the 16 tokens 0 1 2 10 . _ alpha beta pre rc pl nb1 nb a B é. Each pair is judged for all four operators through Pattern::matches and Dewey::matches in both directions and through best_match, against reference model M-dewey. Non-trivial = A and B differ textually AND their component sequences differ in length or share a common prefix of >= 1 component (the decision is not taken on the first number). Distinct = distinct (A,B) strings. Cases inside known finding KF-1 (letter encoded by ASCII code instead of alphabet rank changes the verdict) are judged leniently and counted under known_finding_hits.",
         assumptions: vec![
             "M-dewey is written from the property statement (pkg_install itself is not available offline)",
             "digit runs are capped at 18 digits (domain of the property)",
@@ -208,14 +236,20 @@ pub fn property() -> Property {
                 "pairs",
                 "token-built correlated pairs, all operators, both directions, best_match",
                 pair_strategy,
-                |t| t.pick(60_000, 3_000_000),
+                |t| t.pick(200_000, 3_000_000),
                 check_pair,
             ),
             random_stream(
                 "simple",
                 "dotted numbers with one modifier/letter suffix and optional nb",
                 simple_strategy,
-                |t| t.pick(20_000, 1_000_000),
+                |t| t.pick(60_000, 1_000_000),
+                check_pair,
+            ),
+            enumerated_stream(
+                "small-exhaustive",
+                "all ordered pairs of versions made of at most 2 (thorough: 3) tokens out of 16",
+                enumerate,
                 check_pair,
             ),
             random_stream(
